@@ -95,7 +95,9 @@ def generic_pair(r):
             # interface G1<T> extends G0<T[]>: the extends clause mentions the type parameters
             g = r.choice(bases)
             ext = (g, [r.choice([("param", r.choice(params)), ("arr", ("param", r.choice(params))), closed(1)]) for _ in decls[g][0]])
-            b = ("obj", [("e" + n, o, x) for n, o, x in b[1]])          # own keys differ from the inherited ones
+            # own keys differ from every inherited one, also along a chain of `extends` (a derived interface that redeclares an
+            # inherited member with an incompatible type is not valid TypeScript)
+            b = ("obj", [("e%d%s" % (i, n), o, x) for n, o, x in b[1]])
         decls["G%d" % i] = (params, kind, b, ext); order.append("G%d" % i)
     top = order[-1]
     main = ("app", top, [closed(1) for _ in decls[top][0]])
